@@ -260,7 +260,7 @@ def classify(c, exp, got, st1):
     if c["fam"] == "cond":
         return "cpp:cond:wrong_group_selected"
     glue = got is not None and got != exp and despaced(got) == despaced(exp)
-    if "lex_dot_dot" in ft and not st1.startswith("rc") and st1 != "timeout":
+    if "lex_dot_dot" in ft and st1 != "timeout":
         return K_DOTDOT
     if st1 == "timeout":
         if "call_past_list_end_painted_arg" in ft:
